@@ -145,6 +145,11 @@ func (l *listener) receiveRetry(ctx context.Context) (ndp.Message, netip.Addr, e
 		if cm.HopLimit != ndp.HopLimit {
 			l.logf("received NDP message with IPv6 hop limit %d from %s, ignoring", cm.HopLimit, host)
 			l.cctx.mm.MessagesReceivedInvalidTotal(1.0, l.iface, m.Type().String())
+
+			// The read itself succeeded, so don't count this message against
+			// the retry budget: otherwise a few consecutive invalid messages
+			// from any host on the link would exhaust it and stop this task.
+			i--
 			continue
 		}
 
